@@ -106,6 +106,20 @@ func buildPTree(st *Store, n PNode, path []string, names map[string]string, out 
 		}
 		bn := &builtNode{c: l.(cidlink.Link).Cid, size: sz, content: content}
 		_ = before
+		if !pathStaleFS && salt%3 == 2 {
+			// every third file carries one more level on top: a root with a single link (nothing below the root of a
+			// file at the end of a path is wanted until its bytes are)
+			nd, err := dagServ{st}.Get(context.Background(), bn.c)
+			if err != nil {
+				return nil, err
+			}
+			wn, err := wrapOne(st, nd, uint64(len(content)))
+			if err != nil {
+				return nil, err
+			}
+			bn.c = wn.Cid()
+			bn.size, _ = wn.Size()
+		}
 		if pathStaleFS && n.Kind == "fileN" {
 			nd, err := rewriteOwn(st, bn.c, "shortfs", true)
 			if err != nil {
@@ -338,7 +352,7 @@ func pathOnce(pc *PathCase) (M, error) {
 			if mpath == nil {
 				mpath = []string{}
 			}
-			m := M{"path": mpath, "kind": n.Kind().String(), "bytesOK": false, "names": []string{}}
+			m := M{"path": mpath, "kind": n.Kind().String(), "bytesOK": false, "names": []string{}, "linksOK": true}
 			if pc.Consume {
 				matches = append(matches, m)
 				return unixfsnode.BytesConsumingMatcher(p, n)
@@ -354,21 +368,38 @@ func pathOnce(pc *PathCase) (M, error) {
 				case datamodel.Kind_Map:
 					nm := []string{}
 					it := n.MapIterator()
+					// the listing is collected first and read afterwards: the matched map's pairs stay what they were
+					var kn, vn []datamodel.Node
 					for it != nil && !it.Done() {
-						kk, _, err := it.Next()
+						kk, vv, err := it.Next()
 						if err != nil {
 							nm = append(nm, "!err")
 							break
 						}
-						ks, _ := kk.AsString()
-						if b, ok := back[ks]; ok {
+						kn, vn = append(kn, kk), append(vn, vv)
+					}
+					linksOK := true
+					for i := range kn {
+						ks, _ := kn[i].AsString()
+						b, ok := back[ks]
+						if ok {
 							nm = append(nm, b)
 						} else {
 							nm = append(nm, "?"+ks)
 						}
+						// every key maps to the link of the entry of that name
+						child := b
+						if k != "" {
+							child = k + "/" + b
+						}
+						l, err := vn[i].AsLink()
+						if bn, have := built[child]; !ok || !have || err != nil || !l.(cidlink.Link).Cid.Equals(bn.c) {
+							linksOK = false
+						}
 					}
 					sort.Strings(nm)
 					m["names"] = nm
+					m["linksOK"] = linksOK
 				}
 			}
 			matches = append(matches, m)
